@@ -23,7 +23,8 @@ Definition spec_outcome (n k : N) (tr : list ev) : outcome :=
   else match ender k tr with None => Pending | Some Shutdown => Aborted | Some _ => Answered end.
 Definition spec_sent (n k : N) (tr : list ev) : N := 1 + N.min n (timeouts (live k tr)).
 
-Definition healthy (c : cst) : Prop := stale c = [] /\ blocked c = false.
+(* no request of this connection is outstanding *)
+Definition healthy (c : cst) : Prop := table c = [].
 
 Fixpoint txs (o : list out) : list N :=
   match o with [] => [] | Tx w :: r => w :: txs r | _ :: r => txs r end.
@@ -56,34 +57,50 @@ Lemma exchange_unfold n c tr :
   exchange n c tr = (fst (run_from (fst (start n c)) tr), snd (start n c) ++ snd (run_from (fst (start n c)) tr)).
 Proof. unfold exchange. destruct (start n c) as [s0 o0]. cbn [fst snd]. destruct (run_from s0 tr). reflexivity. Qed.
 
-Lemma stale_hit_cases c k :
-  (mem k (stale c) = true /\ stale_hit c k = (C (counter c) (stale c) true, [ReaderBlocked])) \/
-  (mem k (stale c) = false /\ stale_hit c k = (c, [Ignored])).
-Proof. unfold stale_hit. destruct (mem k (stale c)); auto. Qed.
+Lemma other_hit_cases c k :
+  (mem k (table c) = true /\ other_hit c k = (drop_entry k c, [DeliverOther])) \/
+  (mem k (table c) = false /\ other_hit c k = (c, [Ignored])).
+Proof. unfold other_hit. destruct (mem k (table c)); auto. Qed.
 
 (* ------------------------------------------------------------------------------------------ *)
 (** * Facts about single steps *)
 
+(* the five shapes a step on a response can take *)
+Lemma step_resp_cases s w :
+  (res s = Pending /\ (wire_seq w =? key s) && mem (wire_seq w) (table (conn s)) = true /\
+   step s (Resp w) = (X (retries s) (sent s) Answered (key s) (drop_entry (key s) (conn s)), [Deliver])) \/
+  (exists c' o, (o = [Ignored] \/ o = [DeliverOther]) /\ counter c' = counter (conn s) /\
+   step s (Resp w) = (X (retries s) (sent s) (res s) (key s) c', o)).
+Proof.
+  assert (G : forall r, exists c' o, (o = [Ignored] \/ o = [DeliverOther]) /\ counter c' = counter (conn s) /\
+            (let '(c', o) := other_hit (conn s) (wire_seq w) in (X (retries s) (sent s) r (key s) c', o)) =
+            (X (retries s) (sent s) r (key s) c', o)).
+  { intros r. destruct (other_hit_cases (conn s) (wire_seq w)) as [[_ ->]|[_ ->]].
+    - exists (drop_entry (wire_seq w) (conn s)), [DeliverOther]. repeat split; auto.
+    - exists (conn s), [Ignored]. repeat split; auto. }
+  unfold step. destruct (res s) eqn:E.
+  - destruct ((wire_seq w =? key s) && mem (wire_seq w) (table (conn s))) eqn:K.
+    + left. auto.
+    + right. apply G.
+  - right. apply G.
+  - right. apply G.
+  - right. apply G.
+Qed.
+
 Lemma step_key s e : key (fst (step s e)) = key s.
 Proof.
-  destruct e as [|w|]; unfold step.
-  - destruct (res s); try reflexivity. destruct (0 <? retries s); reflexivity.
-  - destruct (blocked (conn s)); [reflexivity|].
-    destruct (res s); try (destruct (stale_hit (conn s) (wire_seq w)); reflexivity).
-    destruct (wire_seq w =? key s); [reflexivity|]. destruct (stale_hit (conn s) (wire_seq w)); reflexivity.
-  - destruct (res s); reflexivity.
+  destruct e as [|w|].
+  - unfold step. destruct (res s); try reflexivity. destruct (0 <? retries s); reflexivity.
+  - destruct (step_resp_cases s w) as [(_ & _ & ->)|(c' & o & _ & _ & ->)]; reflexivity.
+  - unfold step. destruct (res s); reflexivity.
 Qed.
 
 Lemma step_counter s e : counter (conn (fst (step s e))) = counter (conn s).
 Proof.
-  destruct e as [|w|]; unfold step.
-  - destruct (res s); try reflexivity. destruct (0 <? retries s); reflexivity.
-  - destruct (blocked (conn s)); [reflexivity|].
-    destruct (res s);
-      try (destruct (stale_hit_cases (conn s) (wire_seq w)) as [[_ ->]|[_ ->]]; reflexivity).
-    destruct (wire_seq w =? key s); [reflexivity|].
-    destruct (stale_hit_cases (conn s) (wire_seq w)) as [[_ ->]|[_ ->]]; reflexivity.
-  - destruct (res s); reflexivity.
+  destruct e as [|w|].
+  - unfold step. destruct (res s); try reflexivity. destruct (0 <? retries s); reflexivity.
+  - destruct (step_resp_cases s w) as [(_ & _ & ->)|(c' & o & _ & Hc & ->)]; [reflexivity|exact Hc].
+  - unfold step. destruct (res s); reflexivity.
 Qed.
 
 (* once the exchange is over nothing changes its count, outcome, key or retry budget *)
@@ -92,12 +109,11 @@ Lemma step_frozen s e : res s <> Pending ->
   res s' = res s /\ sent s' = sent s /\ retries s' = retries s /\ txs (snd (step s e)) = [] /\
   teardowns (snd (step s e)) = 0.
 Proof.
-  intros Hn. destruct e as [|w|]; unfold step.
-  - destruct (res s) eqn:E; try (cbn; rewrite ?E; repeat split; reflexivity). congruence.
-  - destruct (blocked (conn s)); [cbn; repeat split; reflexivity|].
-    destruct (res s) eqn:E; [congruence| | |];
-      destruct (stale_hit_cases (conn s) (wire_seq w)) as [[_ ->]|[_ ->]]; cbn; repeat split; reflexivity.
-  - destruct (res s) eqn:E; try (cbn; rewrite ?E; repeat split; reflexivity). congruence.
+  intros Hn. destruct e as [|w|].
+  - unfold step. destruct (res s) eqn:E; try (cbn; rewrite ?E; repeat split; reflexivity). congruence.
+  - destruct (step_resp_cases s w) as [(Hp & _)|(c' & o & Ho & _ & ->)]; [congruence|].
+    destruct Ho as [-> | ->]; cbn; repeat split; reflexivity.
+  - unfold step. destruct (res s) eqn:E; try (cbn; rewrite ?E; repeat split; reflexivity). congruence.
 Qed.
 
 Lemma run_frozen tr : forall s, res s <> Pending ->
@@ -117,14 +133,19 @@ Qed.
 Lemma step_tx_only_on_timeout s e :
   (length (txs (snd (step s e))) <= 1)%nat /\ (txs (snd (step s e)) <> [] -> e = Timeout).
 Proof.
-  destruct e as [|w|]; unfold step.
-  - split; [|reflexivity]. destruct (res s); cbn; try lia. destruct (0 <? retries s); cbn; lia.
-  - destruct (blocked (conn s)); [cbn; split; [lia|congruence]|].
-    destruct (res s);
-      try (destruct (stale_hit_cases (conn s) (wire_seq w)) as [[_ ->]|[_ ->]]; cbn; (split; [lia|congruence])).
-    destruct (wire_seq w =? key s); [cbn; split; [lia|congruence]|].
-    destruct (stale_hit_cases (conn s) (wire_seq w)) as [[_ ->]|[_ ->]]; cbn; (split; [lia|congruence]).
-  - destruct (res s); cbn; split; try lia; congruence.
+  destruct e as [|w|].
+  - unfold step. split; [|reflexivity]. destruct (res s); cbn; try lia. destruct (0 <? retries s); cbn; lia.
+  - destruct (step_resp_cases s w) as [(_ & _ & ->)|(c' & o & Ho & _ & ->)]; [cbn; split; [lia|congruence]|].
+    destruct Ho as [-> | ->]; cbn; (split; [lia|congruence]).
+  - unfold step. destruct (res s); cbn; split; try lia; congruence.
+Qed.
+
+(* a response is always dealt with on the spot: delivered, ignored, or delivered to another request *)
+Lemma step_resp_never_blocks s w :
+  exists o, snd (step s (Resp w)) = [o] /\ (o = Deliver \/ o = Ignored \/ o = DeliverOther).
+Proof.
+  destruct (step_resp_cases s w) as [(_ & _ & ->)|(c' & o & Ho & _ & ->)]; [exists Deliver; auto|].
+  destruct Ho as [-> | ->]; eexists; split; cbn; eauto.
 Qed.
 
 (* ------------------------------------------------------------------------------------------ *)
@@ -139,13 +160,13 @@ Proof.
   intros [Hb Hp]. destruct (res s) eqn:E.
   2,3,4: (assert (Hn : res s <> Pending) by congruence;
           destruct (step_frozen s e Hn) as (H1 & H2 & _); split; [rewrite H2; exact Hb| rewrite H1, E; discriminate]).
-  specialize (Hp eq_refl). destruct e as [|w|]; unfold step, budget; rewrite E.
-  - destruct (0 <? retries s) eqn:R; cbn [fst sent res retries]; (split; [lia|]); try discriminate. intros _. lia.
-  - destruct (blocked (conn s)); [cbn [fst]; rewrite E; split; [lia|intros _; lia]|].
-    destruct (wire_seq w =? key s); [cbn [fst sent res retries]; split; [lia|discriminate]|].
-    destruct (stale_hit_cases (conn s) (wire_seq w)) as [[_ ->]|[_ ->]]; cbn [fst sent res retries];
-      (split; [lia|intros _; lia]).
-  - cbn [fst sent res retries]. split; [lia|discriminate].
+  specialize (Hp eq_refl). destruct e as [|w|]; unfold budget.
+  - unfold step. rewrite E.
+    destruct (0 <? retries s) eqn:R; cbn [fst sent res retries]; (split; [lia|]); try discriminate. intros _. lia.
+  - destruct (step_resp_cases s w) as [(_ & _ & ->)|(c' & o & _ & _ & ->)]; cbn [fst sent res retries].
+    + split; [lia|discriminate].
+    + split; [lia|intros _; lia].
+  - unfold step. rewrite E. cbn [fst sent res retries]. split; [lia|discriminate].
 Qed.
 
 Lemma run_budget n tr : forall s, budget n s -> budget n (fst (run_from s tr)).
@@ -166,14 +187,11 @@ Qed.
 (* the number of Tx outputs is the counter [sent] *)
 Lemma step_sent s e : sent (fst (step s e)) = sent s + N.of_nat (length (txs (snd (step s e)))).
 Proof.
-  destruct e as [|w|]; unfold step.
-  - destruct (res s); cbn; try lia. destruct (0 <? retries s); cbn; lia.
-  - destruct (blocked (conn s)); [cbn; lia|].
-    destruct (res s);
-      try (destruct (stale_hit_cases (conn s) (wire_seq w)) as [[_ ->]|[_ ->]]; cbn; lia).
-    destruct (wire_seq w =? key s); [cbn; lia|].
-    destruct (stale_hit_cases (conn s) (wire_seq w)) as [[_ ->]|[_ ->]]; cbn; lia.
-  - destruct (res s); cbn; lia.
+  destruct e as [|w|].
+  - unfold step. destruct (res s); cbn; try lia. destruct (0 <? retries s); cbn; lia.
+  - destruct (step_resp_cases s w) as [(_ & _ & ->)|(c' & o & Ho & _ & ->)]; [cbn; lia|].
+    destruct Ho as [-> | ->]; cbn; lia.
+  - unfold step. destruct (res s); cbn; lia.
 Qed.
 
 Lemma run_sent tr : forall s, sent (fst (run_from s tr)) = sent s + N.of_nat (length (txs (snd (run_from s tr)))).
@@ -191,14 +209,11 @@ Qed.
 (* every transmission of an exchange carries the wire image of the one key drawn at its start *)
 Lemma step_tx_key s e w : In w (txs (snd (step s e))) -> w = wire_seq (key s).
 Proof.
-  destruct e as [|w'|]; unfold step.
-  - destruct (res s); cbn; try tauto. destruct (0 <? retries s); cbn; [intros [H|[]]; auto | tauto].
-  - destruct (blocked (conn s)); [cbn; tauto|].
-    destruct (res s);
-      try (destruct (stale_hit_cases (conn s) (wire_seq w')) as [[_ ->]|[_ ->]]; cbn; tauto).
-    destruct (wire_seq w' =? key s); [cbn; tauto|].
-    destruct (stale_hit_cases (conn s) (wire_seq w')) as [[_ ->]|[_ ->]]; cbn; tauto.
-  - destruct (res s); cbn; tauto.
+  destruct e as [|w'|].
+  - unfold step. destruct (res s); cbn; try tauto. destruct (0 <? retries s); cbn; [intros [H|[]]; auto | tauto].
+  - destruct (step_resp_cases s w') as [(_ & _ & ->)|(c' & o & Ho & _ & ->)]; [cbn; tauto|].
+    destruct Ho as [-> | ->]; cbn; tauto.
+  - unfold step. destruct (res s); cbn; tauto.
 Qed.
 
 Lemma run_key tr : forall s, key (fst (run_from s tr)) = key s.
@@ -237,16 +252,68 @@ Lemma exchange_counter n c tr : counter (conn (fst (exchange n c tr))) = next_se
 Proof. rewrite exchange_unfold. cbn [fst]. rewrite run_counter. reflexivity. Qed.
 
 (* ------------------------------------------------------------------------------------------ *)
-(** * Refinement: on a healthy connection the automaton computes the trace-level specification *)
+(** * Sequence numbers: 24 bits, key = wire image, no collision within a window of 2^24 requests *)
 
-Lemma run_char tr : forall s, res s = Pending -> blocked (conn s) = false -> stale (conn s) = [] ->
+Lemma wire_seq_lt w : wire_seq w < two24.
+Proof. unfold wire_seq. apply N.mod_lt. discriminate. Qed.
+
+Lemma next_seq_lt c : next_seq c < two24.
+Proof. unfold next_seq. apply N.mod_lt. discriminate. Qed.
+
+Lemma wire_seq_small k : k < two24 -> wire_seq k = k.
+Proof. unfold wire_seq. apply N.mod_small. Qed.
+
+(* for EVERY counter value the key a request is stored under is the number that travels *)
+Lemma key_is_wire_seq c : wire_seq (next_seq c) = next_seq c.
+Proof. apply wire_seq_small, next_seq_lt. Qed.
+
+Lemma next_seq_wraps : next_seq (two24 - 1) = 0 /\ next_seq 0 = 1.
+Proof. vm_compute. auto. Qed.
+
+Fixpoint seq_after (i : nat) (c : N) : N := match i with O => c | S j => next_seq (seq_after j c) end.
+
+Lemma seq_after_closed i c : seq_after (S i) c = (c + N.of_nat (S i)) mod two24.
+Proof.
+  induction i as [|i IH].
+  - cbn [seq_after]. unfold next_seq. f_equal.
+  - change (seq_after (S (S i)) c) with (next_seq (seq_after (S i) c)). rewrite IH. unfold next_seq.
+    rewrite N.add_mod_idemp_l by discriminate. f_equal. lia.
+Qed.
+
+(* two of a connection's requests carry the same number only if 2^24 or more requests lie between them *)
+Lemma keys_distinct_within_window c i j : (i < j)%nat -> N.of_nat (j - i) < two24 ->
+  seq_after (S i) c <> seq_after (S j) c.
+Proof.
+  intros Hij Hw. rewrite !seq_after_closed. intros E.
+  set (a := c + N.of_nat (S i)) in *.
+  replace (c + N.of_nat (S j)) with (a + N.of_nat (j - i)) in E by (unfold a; lia).
+  set (d := N.of_nat (j - i)) in *. assert (Hd : 0 < d) by (unfold d; lia).
+  assert (Ht : two24 <> 0) by discriminate.
+  pose proof (N.div_mod a two24 Ht) as Da. pose proof (N.div_mod (a + d) two24 Ht) as Db.
+  pose proof (N.mod_lt a two24 Ht) as La.
+  rewrite <- E in Db.
+  assert (Hq : two24 * ((a + d) / two24) = two24 * (a / two24) + d) by lia.
+  assert (Hle : a / two24 <= (a + d) / two24) by (apply N.div_le_mono; [exact Ht|lia]).
+  assert (Hne : a / two24 <> (a + d) / two24) by (intros Q; rewrite <- Q in Hq; lia).
+  assert (Hs : a / two24 + 1 <= (a + d) / two24) by lia.
+  assert (two24 * (a / two24 + 1) <= two24 * ((a + d) / two24)) by (apply N.mul_le_mono_l; exact Hs).
+  lia.
+Qed.
+
+(* ------------------------------------------------------------------------------------------ *)
+(** * Refinement: with no other request outstanding the automaton computes the trace-level specification *)
+
+Lemma mem_single k x : mem k [x] = (k =? x).
+Proof. cbn. apply orb_false_r. Qed.
+
+Lemma run_char tr : forall s, res s = Pending -> table (conn s) = [key s] ->
   let s' := fst (run_from s tr) in
   sent s' = sent s + N.min (retries s) (timeouts (live (key s) tr)) /\
   res s' = (if retries s <? timeouts (live (key s) tr) then Dead
             else match ender (key s) tr with None => Pending | Some Shutdown => Aborted | Some _ => Answered end) /\
   teardowns (snd (run_from s tr)) = (if retries s <? timeouts (live (key s) tr) then 1 else 0).
 Proof.
-  induction tr as [|e r IH]; intros s Hp Hb Hs.
+  induction tr as [|e r IH]; intros s Hp Hs.
   - cbn [run_from fst snd live ender timeouts teardowns].
     assert (E : (retries s <? 0) = false) by lia. rewrite E, Hp. repeat split; lia.
   - rewrite run_from_cons. cbn [fst snd]. destruct e as [|w|].
@@ -255,19 +322,19 @@ Proof.
       assert (St : step s Timeout =
                    if 0 <? retries s
                    then (X (retries s - 1) (sent s + 1) Pending (key s) (conn s), [Tx (wire_seq (key s))])
-                   else (X (retries s) (sent s) Dead (key s) (add_stale (key s) (conn s)), [Teardown])).
+                   else (X (retries s) (sent s) Dead (key s) (drop_entry (key s) (conn s)), [Teardown])).
       { unfold step. rewrite Hp. reflexivity. }
       rewrite St. clear St. destruct (0 <? retries s) eqn:R.
       * cbn [fst snd]. rewrite teardowns_app. cbn [teardowns].
         set (s1 := X (retries s - 1) (sent s + 1) Pending (key s) (conn s)).
-        destruct (IH s1 eq_refl Hb Hs) as (I1 & I2 & I3). cbn [key retries sent s1] in I1, I2, I3.
+        destruct (IH s1 eq_refl Hs) as (I1 & I2 & I3). cbn [key retries sent s1] in I1, I2, I3.
         rewrite I1, I2, I3.
         assert (E : (retries s - 1 <? timeouts (live (key s) r)) = (retries s <? 1 + timeouts (live (key s) r))).
         { destruct (retries s - 1 <? timeouts (live (key s) r)) eqn:A,
                    (retries s <? 1 + timeouts (live (key s) r)) eqn:B; try reflexivity; lia. }
         rewrite E. repeat split; lia.
       * cbn [fst snd]. rewrite teardowns_app. cbn [teardowns].
-        set (s1 := X (retries s) (sent s) Dead (key s) (add_stale (key s) (conn s))).
+        set (s1 := X (retries s) (sent s) Dead (key s) (drop_entry (key s) (conn s))).
         assert (Hn : res s1 <> Pending) by (cbn; discriminate).
         destruct (run_frozen r s1 Hn) as (F1 & F2 & _ & _ & F5). cbn [res sent s1] in F1, F2.
         rewrite F1, F2, F5.
@@ -276,33 +343,30 @@ Proof.
     + (* Resp *)
       cbn [live ender ends timeouts].
       destruct (wire_seq w =? key s) eqn:K.
-      * assert (St : step s (Resp w) = (X (retries s) (sent s) Answered (key s) (conn s), [Deliver])).
-        { unfold step. rewrite Hb, Hp, K. reflexivity. }
+      * assert (St : step s (Resp w) = (X (retries s) (sent s) Answered (key s) (drop_entry (key s) (conn s)), [Deliver])).
+        { unfold step. rewrite Hp, Hs, mem_single, K. reflexivity. }
         rewrite St. clear St. cbn [fst snd live ender timeouts].
-        set (s1 := X (retries s) (sent s) Answered (key s) (conn s)).
+        set (s1 := X (retries s) (sent s) Answered (key s) (drop_entry (key s) (conn s))).
         assert (Hn : res s1 <> Pending) by (cbn; discriminate).
         destruct (run_frozen r s1 Hn) as (F1 & F2 & _ & _ & F5). cbn [res sent s1] in F1, F2.
         rewrite F1, F2, teardowns_app, F5.
         assert (E : (retries s <? 0) = false) by lia. rewrite E. cbn [teardowns]. repeat split; lia.
       * assert (St : step s (Resp w) = (s, [Ignored])).
-        { unfold step. rewrite Hb, Hp, K. unfold stale_hit. rewrite Hs. cbn [mem].
+        { unfold step. rewrite Hp, K. cbn [andb]. unfold other_hit. rewrite Hs, mem_single, K.
           destruct s; cbn in *; subst; reflexivity. }
         rewrite St. clear St. cbn [fst snd live timeouts]. rewrite teardowns_app. cbn [teardowns].
-        destruct (IH s Hp Hb Hs) as (I1 & I2 & I3). rewrite I1, I2, I3. repeat split; lia.
+        destruct (IH s Hp Hs) as (I1 & I2 & I3). rewrite I1, I2, I3. repeat split; lia.
     + (* Shutdown *)
       cbn [live ender ends timeouts].
-      assert (St : step s Shutdown = (X (retries s) (sent s) Aborted (key s) (add_stale (key s) (conn s)), [])).
+      assert (St : step s Shutdown = (X (retries s) (sent s) Aborted (key s) (drop_entry (key s) (conn s)), [])).
       { unfold step. rewrite Hp. reflexivity. }
       rewrite St. clear St. cbn [fst snd app].
-      set (s1 := X (retries s) (sent s) Aborted (key s) (add_stale (key s) (conn s))).
+      set (s1 := X (retries s) (sent s) Aborted (key s) (drop_entry (key s) (conn s))).
       assert (Hn : res s1 <> Pending) by (cbn; discriminate).
       destruct (run_frozen r s1 Hn) as (F1 & F2 & _ & _ & F5). cbn [res sent s1] in F1, F2.
       rewrite F1, F2, F5.
       assert (E : (retries s <? 0) = false) by lia. rewrite E. cbn [app teardowns]. repeat split; lia.
 Qed.
-
-Lemma del_nil k : del k [] = [].
-Proof. reflexivity. Qed.
 
 Theorem exchange_refines_spec n c tr : healthy c ->
   let k := next_seq (counter c) in
@@ -310,9 +374,9 @@ Theorem exchange_refines_spec n c tr : healthy c ->
   res (fst (exchange n c tr)) = spec_outcome n k tr /\
   teardowns (snd (exchange n c tr)) = (if n <? timeouts (live k tr) then 1 else 0).
 Proof.
-  intros [Hs Hb]. rewrite exchange_unfold. cbn [fst snd].
-  assert (H0 : stale (conn (fst (start n c))) = []) by (cbn; rewrite Hs; reflexivity).
-  destruct (run_char tr (fst (start n c)) eq_refl Hb H0) as (I1 & I2 & I3).
+  intros Hs. rewrite exchange_unfold. cbn [fst snd].
+  assert (H0 : table (conn (fst (start n c))) = [key (fst (start n c))]) by (cbn; rewrite Hs; reflexivity).
+  destruct (run_char tr (fst (start n c)) eq_refl H0) as (I1 & I2 & I3).
   cbn [start fst key retries sent] in I1, I2, I3.
   rewrite teardowns_app. cbn [start snd teardowns]. unfold spec_sent, spec_outcome.
   cbn [start fst]. rewrite I1, I2, I3. repeat split; lia.
@@ -341,18 +405,11 @@ Qed.
 Lemma live_noend_self k a : noend k a -> live k a = a.
 Proof. intros H. rewrite <- (app_nil_r a) at 1. rewrite live_noend by exact H. cbn. apply app_nil_r. Qed.
 
-Lemma ender_noend_self k a : noend k a -> ender k a = None.
-Proof. intros H. rewrite <- (app_nil_r a). rewrite ender_noend by exact H. reflexivity. Qed.
-
-Lemma wire_seq_lt w : wire_seq w < two24.
-Proof. unfold wire_seq. apply N.mod_lt. discriminate. Qed.
-
-Lemma wire_seq_small k : k < two24 -> wire_seq k = k.
-Proof. unfold wire_seq. apply N.mod_small. Qed.
-
-(* from 2^24 on no response can carry the stored key *)
-Lemma big_key_never_matches k w : two24 <= k -> (wire_seq w =? k) = false.
-Proof. intros H. pose proof (wire_seq_lt w). lia. Qed.
+(* "ends" read on the wire: a response ends the exchange iff it echoes the number that was sent *)
+Lemma ends_wire c e :
+  ends (next_seq c) e =
+  match e with Resp w => wire_seq w =? wire_seq (next_seq c) | Shutdown => true | Timeout => false end.
+Proof. destruct e; cbn [ends]; rewrite ?key_is_wire_seq; reflexivity. Qed.
 
 (* ------------------------------------------------------------------------------------------ *)
 (** * Consequences of the refinement *)
@@ -364,16 +421,18 @@ Proof.
   rewrite !exchange_unfold. cbn [fst snd]. rewrite run_from_app. cbn [fst snd]. rewrite app_assoc. auto.
 Qed.
 
+(* stated on the wire: the response echoes the sequence number the request carried *)
 Lemma stop_on_match n c tr1 w tr2 : healthy c ->
   let k := next_seq (counter c) in
-  noend k tr1 -> timeouts tr1 <= n -> wire_seq w = k ->
+  noend k tr1 -> timeouts tr1 <= n -> wire_seq w = wire_seq k ->
   res (fst (exchange n c (tr1 ++ Resp w :: tr2))) = Answered /\
   sent (fst (exchange n c (tr1 ++ Resp w :: tr2))) = 1 + timeouts tr1 /\
   sent (fst (exchange n c tr1)) = 1 + timeouts tr1 /\
   txs (snd (exchange n c (tr1 ++ Resp w :: tr2))) = txs (snd (exchange n c tr1)) /\
   teardowns (snd (exchange n c (tr1 ++ Resp w :: tr2))) = 0.
 Proof.
-  intros Hh k Hne Ht Hw.
+  intros Hh k Hne Ht Hw0.
+  assert (Hw : wire_seq w = k) by (rewrite Hw0; apply key_is_wire_seq).
   destruct (exchange_refines_spec n c (tr1 ++ Resp w :: tr2) Hh) as (A1 & A2 & A3).
   destruct (exchange_refines_spec n c tr1 Hh) as (B1 & _ & _).
   fold k in A1, A2, A3, B1.
@@ -410,59 +469,29 @@ Proof.
       destruct (ender k tr) as [[| |]|]; discriminate.
 Qed.
 
-(* code-level matching = wire-level matching exactly while the key is below 2^24 *)
-Lemma ends_wire k e : k < two24 ->
-  ends k e = match e with Resp w => wire_seq w =? wire_seq k | Shutdown => true | Timeout => false end.
-Proof. intros H. destruct e; cbn; rewrite ?(wire_seq_small k H); reflexivity. Qed.
-
-(* F31: with a key >= 2^24 responses are irrelevant; only time and Shutdown decide *)
-Fixpoint no_shutdown (tr : list ev) : bool :=
-  match tr with [] => true | Shutdown :: _ => false | _ :: r => no_shutdown r end.
-
-Lemma big_key_live k tr : two24 <= k -> no_shutdown tr = true -> live k tr = tr /\ ender k tr = None.
-Proof.
-  intros Hk. induction tr as [|e r IH]; cbn [no_shutdown live ender]; [auto|].
-  destruct e as [|w|]; cbn [ends]; try discriminate.
-  - intros H. destruct (IH H) as [-> ->]. auto.
-  - rewrite big_key_never_matches by exact Hk. intros H. destruct (IH H) as [-> ->]. auto.
-Qed.
-
-Lemma big_key_deaf n c tr : healthy c -> two24 <= next_seq (counter c) -> no_shutdown tr = true ->
-  res (fst (exchange n c tr)) = (if n <? timeouts tr then Dead else Pending) /\
-  sent (fst (exchange n c tr)) = 1 + N.min n (timeouts tr).
-Proof.
-  intros Hh Hk Hs. destruct (exchange_refines_spec n c tr Hh) as (A1 & A2 & _).
-  destruct (big_key_live _ tr Hk Hs) as [El Ee].
-  unfold spec_sent, spec_outcome in *. rewrite El in A1, A2. rewrite Ee in A2. auto.
-Qed.
-
 (* ------------------------------------------------------------------------------------------ *)
-(** * Reachable shapes of the pending table; what a response does in each *)
+(** * The pending table: exactly this exchange's entry while it is pending, nothing once it ended *)
 
 Definition shape (s : xst) : Prop :=
-  (stale (conn s) = [] /\ blocked (conn s) = false /\ (res s = Pending \/ res s = Answered)) \/
-  (stale (conn s) = [key s] /\ (res s = Dead \/ res s = Aborted)).
+  table (conn s) = match res s with Pending => [key s] | _ => [] end.
+
+Lemma del_single k : del k [k] = [].
+Proof. cbn. rewrite N.eqb_refl. reflexivity. Qed.
 
 Lemma step_shape s e : shape s -> shape (fst (step s e)).
 Proof.
-  intros [(Hs & Hb & Hr)|(Hs & Hr)].
-  - destruct e as [|w|]; unfold step.
-    + destruct Hr as [Hr|Hr]; rewrite Hr.
-      * destruct (0 <? retries s); cbn [fst]; [left; cbn; auto|right; cbn; rewrite Hs; auto].
-      * cbn [fst]. left. auto.
-    + rewrite Hb. unfold stale_hit. rewrite Hs. cbn [mem].
-      destruct Hr as [Hr|Hr]; rewrite Hr.
-      * destruct (wire_seq w =? key s); cbn [fst]; left; cbn; auto.
-      * cbn [fst]. left. cbn. auto.
-    + destruct Hr as [Hr|Hr]; rewrite Hr; cbn [fst]; [right; cbn; rewrite Hs; auto|left; auto].
-  - assert (Hn : res s <> Pending) by (destruct Hr as [Hr|Hr]; rewrite Hr; discriminate).
-    destruct (step_frozen s e Hn) as (H1 & _). right. rewrite step_key, H1. split; [|exact Hr].
-    destruct e as [|w|]; unfold step.
-    + destruct Hr as [Hr|Hr]; rewrite Hr; exact Hs.
-    + destruct (blocked (conn s)); [exact Hs|].
-      destruct Hr as [Hr|Hr]; rewrite Hr;
-        destruct (stale_hit_cases (conn s) (wire_seq w)) as [[_ ->]|[_ ->]]; exact Hs.
-    + destruct Hr as [Hr|Hr]; rewrite Hr; exact Hs.
+  unfold shape. intros Hs. destruct e as [|w|]; unfold step.
+  - destruct (res s) eqn:E; try (cbn [fst]; rewrite E; exact Hs).
+    destruct (0 <? retries s); cbn [fst res key conn drop_entry table]; [exact Hs|rewrite Hs; apply del_single].
+  - unfold other_hit. rewrite Hs. destruct (res s) eqn:E.
+    + rewrite mem_single. destruct (wire_seq w =? key s) eqn:K; cbn [andb fst res key conn drop_entry table].
+      * rewrite Hs. apply del_single.
+      * exact Hs.
+    + cbn [mem fst res key conn]. exact Hs.
+    + cbn [mem fst res key conn]. exact Hs.
+    + cbn [mem fst res key conn]. exact Hs.
+  - destruct (res s) eqn:E; try (cbn [fst]; rewrite E; exact Hs).
+    cbn [fst res key conn drop_entry table]. rewrite Hs. apply del_single.
 Qed.
 
 Lemma run_shape tr : forall s, shape s -> shape (fst (run_from s tr)).
@@ -473,68 +502,52 @@ Qed.
 
 Lemma exchange_shape n c tr : healthy c -> shape (fst (exchange n c tr)).
 Proof.
-  intros [Hs Hb]. rewrite exchange_unfold. cbn [fst]. apply run_shape. left. cbn. rewrite Hs. auto.
+  intros Hs. rewrite exchange_unfold. cbn [fst]. apply run_shape. unfold shape. cbn. rewrite Hs. reflexivity.
+Qed.
+
+(* the entry is gone whenever the exchange has ended, however it ended: the next request starts clean *)
+Lemma exchange_leaves_clean n c tr : healthy c -> res (fst (exchange n c tr)) <> Pending ->
+  healthy (conn (fst (exchange n c tr))).
+Proof.
+  intros Hh Hr. pose proof (exchange_shape n c tr Hh) as Hs. unfold shape in Hs. unfold healthy.
+  destruct (res (fst (exchange n c tr))); [congruence|exact Hs..].
 Qed.
 
 Lemma xst_eta s : X (retries s) (sent s) (res s) (key s) (conn s) = s.
 Proof. destruct s; reflexivity. Qed.
 
-(* wrong-sequence responses at any time, and any response after the exchange was answered
-   (duplicates), leave the whole state untouched *)
-Lemma nonmatching_ignored_step s w : shape s -> blocked (conn s) = false ->
-  wire_seq w <> key s \/ res s = Answered -> step s (Resp w) = (s, [Ignored]).
+(* every response that does not carry the pending request's number, and EVERY response once the
+   exchange is over (duplicate after the answer, late after the final timeout, after an abort),
+   leaves the whole state untouched *)
+Lemma ignored_step s w : shape s -> wire_seq w <> key s \/ res s <> Pending ->
+  step s (Resp w) = (s, [Ignored]).
 Proof.
-  intros Hsh Hb Hw. unfold step. rewrite Hb.
-  destruct Hsh as [(Hs & _ & Hr)|(Hs & Hr)].
-  - unfold stale_hit. rewrite Hs. cbn [mem].
-    destruct Hr as [Hr|Hr]; rewrite Hr.
-    + destruct Hw as [Hw|Hw]; [|congruence].
-      apply N.eqb_neq in Hw. rewrite Hw. rewrite <- Hr. rewrite xst_eta. reflexivity.
-    + rewrite <- Hr. rewrite xst_eta. reflexivity.
-  - destruct Hw as [Hw|Hw]; [|destruct Hr; congruence].
-    unfold stale_hit. rewrite Hs. cbn [mem]. apply N.eqb_neq in Hw. rewrite Hw. cbn [orb].
-    destruct Hr as [Hr|Hr]; rewrite Hr; rewrite <- Hr; rewrite xst_eta; reflexivity.
+  unfold shape. intros Hs Hw. unfold step, other_hit. rewrite Hs.
+  destruct (res s) eqn:E.
+  - destruct Hw as [Hw|Hw]; [|congruence]. apply N.eqb_neq in Hw. rewrite mem_single, Hw. cbn [andb].
+    rewrite <- E, xst_eta. reflexivity.
+  - cbn [mem]. rewrite <- E, xst_eta. reflexivity.
+  - cbn [mem]. rewrite <- E, xst_eta. reflexivity.
+  - cbn [mem]. rewrite <- E, xst_eta. reflexivity.
 Qed.
 
 Lemma nonmatching_ignored n c tr1 w tr2 : healthy c ->
   let s1 := fst (exchange n c tr1) in
-  blocked (conn s1) = false -> wire_seq w <> key s1 \/ res s1 = Answered ->
+  wire_seq w <> wire_seq (key s1) \/ res s1 <> Pending ->
+  snd (step s1 (Resp w)) = [Ignored] /\
   fst (exchange n c (tr1 ++ Resp w :: tr2)) = fst (exchange n c (tr1 ++ tr2)) /\
   txs (snd (exchange n c (tr1 ++ Resp w :: tr2))) = txs (snd (exchange n c (tr1 ++ tr2))) /\
   teardowns (snd (exchange n c (tr1 ++ Resp w :: tr2))) = teardowns (snd (exchange n c (tr1 ++ tr2))).
 Proof.
-  intros Hh s1 Hb Hw.
-  pose proof (nonmatching_ignored_step s1 w (exchange_shape n c tr1 Hh) Hb Hw) as St.
+  intros Hh s1 Hw.
+  assert (Hw' : wire_seq w <> key s1 \/ res s1 <> Pending).
+  { destruct Hw as [Hw|Hw]; [left|right; exact Hw]. unfold s1 in *. rewrite exchange_key in *.
+    rewrite key_is_wire_seq in Hw. exact Hw. }
+  pose proof (ignored_step s1 w (exchange_shape n c tr1 Hh) Hw') as St.
   destruct (exchange_app n c tr1 (Resp w :: tr2)) as [A1 A2].
   destruct (exchange_app n c tr1 tr2) as [B1 B2]. fold s1 in A1, A2, B1, B2.
   rewrite run_from_cons, St in A1, A2. cbn [fst snd] in A1, A2.
-  rewrite A1, A2, B1, B2, !txs_app, !teardowns_app. cbn [txs teardowns app]. repeat split; lia.
-Qed.
-
-(* while pending or answered the reader is never wedged *)
-Lemma live_reader_free n c tr : healthy c ->
-  res (fst (exchange n c tr)) = Pending \/ res (fst (exchange n c tr)) = Answered ->
-  blocked (conn (fst (exchange n c tr))) = false.
-Proof.
-  intros Hh Hr. destruct (exchange_shape n c tr Hh) as [(_ & Hb & _)|(_ & Hd)]; [exact Hb|].
-  destruct Hr as [Hr|Hr], Hd as [Hd|Hd]; congruence.
-Qed.
-
-(* F30: after the exchange ended by timeout or shutdown its entry is still in the table; the first
-   response that carries its number finds it, sends on a channel nobody receives from, and the
-   reader goroutine is stuck from then on *)
-Lemma late_response_blocks s w : shape s -> res s = Dead \/ res s = Aborted ->
-  blocked (conn s) = false -> wire_seq w = key s ->
-  snd (step s (Resp w)) = [ReaderBlocked] /\ blocked (conn (fst (step s (Resp w)))) = true /\
-  forall w', step (fst (step s (Resp w))) (Resp w') = (fst (step s (Resp w)), [Unread]).
-Proof.
-  intros Hsh Hr Hb Hw.
-  destruct Hsh as [(_ & _ & Hp)|(Hs & _)]; [destruct Hr, Hp; congruence|].
-  assert (St : step s (Resp w) = (X (retries s) (sent s) (res s) (key s) (C (counter (conn s)) (stale (conn s)) true),
-                                  [ReaderBlocked])).
-  { unfold step. rewrite Hb. unfold stale_hit. rewrite Hs, Hw. cbn [mem]. rewrite N.eqb_refl. cbn [orb].
-    destruct Hr as [Hr|Hr]; rewrite Hr; reflexivity. }
-  rewrite St. cbn [fst snd conn blocked]. repeat split.
+  rewrite St, A1, A2, B1, B2, !txs_app, !teardowns_app. cbn [snd txs teardowns app]. repeat split; lia.
 Qed.
 
 (* ------------------------------------------------------------------------------------------ *)
@@ -685,26 +698,31 @@ Lemma c12_spaced n c tr : healthy c ->
   sent (fst (exchange n c tr)) = 1 + N.min n (timeouts (live (next_seq (counter c)) tr)).
 Proof. intros H. destruct (exchange_refines_spec n c tr H) as (A & _). exact A. Qed.
 
-Lemma c12_late_blocks n c tr w : healthy c ->
+(* a response after the final timeout, after an abort or after the answer: ignored, state untouched *)
+Lemma c12_late_ignored n c tr w : healthy c ->
   let s := fst (exchange n c tr) in
-  res s = Dead \/ res s = Aborted -> blocked (conn s) = false -> wire_seq w = key s ->
-  snd (step s (Resp w)) = [ReaderBlocked] /\ blocked (conn (fst (step s (Resp w)))) = true /\
-  forall w', step (fst (step s (Resp w))) (Resp w') = (fst (step s (Resp w)), [Unread]).
-Proof. intros H s. apply late_response_blocks, exchange_shape, H. Qed.
+  res s <> Pending -> step s (Resp w) = (s, [Ignored]).
+Proof. intros H s Hr. apply ignored_step; [apply exchange_shape, H|right; exact Hr]. Qed.
 
-Definition c24 : cst := C (two24 - 1) [] false.      (* 2^24 - 1 requests were sent on this connection *)
+(* every call starts from a clean table again: health is an invariant of a connection's history *)
+Lemma call_leaves_clean n c who tr : healthy c -> res (fst (exchange n c tr)) <> Pending ->
+  healthy (fst (fst (call n c who tr))).
+Proof.
+  intros Hh Hr. pose proof (exchange_leaves_clean n c tr Hh Hr) as H. unfold call.
+  destruct (exchange n c tr) as [s o]. cbn [fst] in *.
+  destruct (res s), who as [|[|]]; cbn [fst]; exact H.
+Qed.
 
-(* F31 witness: the peer echoes the sequence number it received to every transmission at once *)
-Lemma c12_seq24_witness :
-  healthy c24 /\ next_seq (counter c24) = two24 /\ wire_seq (next_seq (counter c24)) = 0 /\
-  let tr := [Resp 0; Timeout; Resp 0; Timeout; Resp 0; Timeout] in
-  res (fst (exchange 2 c24 tr)) = Dead /\ sent (fst (exchange 2 c24 tr)) = 3 /\
-  teardowns (snd (exchange 2 c24 tr)) = 1.
+Definition c24 : cst := C (two24 - 1) [].      (* 2^24 - 1 requests were sent on this connection *)
+
+(* the 2^24-th request: the counter wraps to 0, the peer's echo matches at once *)
+Lemma c12_wrap_witness :
+  healthy c24 /\ next_seq (counter c24) = 0 /\
+  exchange 2 c24 [Resp 0; Timeout; Resp 0] = (X 2 1 Answered 0 (C 0 []), [Tx 0; Deliver; Ignored]).
 Proof. vm_compute. repeat split; reflexivity. Qed.
 
-(* F30 witness: no retries, one timeout, then the answer arrives *)
+(* no retries, one timeout, then the answer arrives: ignored, and the next request works *)
 Lemma c12_late_witness :
   healthy fresh_conn /\
-  res (fst (exchange 0 fresh_conn [Timeout])) = Dead /\
-  snd (exchange 0 fresh_conn [Timeout; Resp 1; Resp 1; Resp 7]) = [Tx 1; Teardown; ReaderBlocked; Unread; Unread].
+  exchange 0 fresh_conn [Timeout; Resp 1; Resp 1; Resp 7] = (X 0 1 Dead 1 (C 1 []), [Tx 1; Teardown; Ignored; Ignored; Ignored]).
 Proof. vm_compute. repeat split; reflexivity. Qed.
